@@ -25,7 +25,7 @@ def klass(src):
 
 
 def run_cases(run, cases, exp_tokens=None):
-    obs, hooks = common.run_pool(cases, deadline_ms=400)
+    obs, hooks = common.run_pool(cases, deadline_ms=3000)
     run.hooks = hooks
     drift = 0
     for c in cases:
